@@ -34,9 +34,13 @@ def norm_stmt(s: str) -> str:
 
 
 class RefFree:
-    def __init__(self, docmark="!", predocmark=">"):
+    def __init__(self, docmark="!", predocmark=">", docmark_alt=None, predocmark_alt=None):
         self.docmark = docmark
         self.predocmark = predocmark
+        # alternative marks: the marked comment line opens a block; the comment-only lines immediately following it belong to the block
+        self.docmark_alt = docmark_alt
+        self.predocmark_alt = predocmark_alt
+        self._alt = None  # None | "doc" | "pre": kind of the alternative block the previous line belongs to
         self.cur = None  # text of statement being assembled (None = no statement open)
         self.lit = None  # quote char of a literal open across a continuation
         self.continued = False
@@ -72,6 +76,9 @@ class RefFree:
     def _comment(self, text, own_line):
         """text starts with '!'."""
         dm, pm = "!" + self.docmark, "!" + self.predocmark if self.predocmark else None
+        da = "!" + self.docmark_alt if self.docmark_alt else None
+        pa = "!" + self.predocmark_alt if self.predocmark_alt else None
+        alt, self._alt = self._alt, None
         if text.startswith(dm):
             if own_line and not self.continued:
                 if self._predoc_block_open:
@@ -90,7 +97,30 @@ class RefFree:
             self.predocs.append("!" + self.docmark + text[len(pm):].rstrip())
             self._predoc_block_open = True
             return
-        # ordinary comment: dropped
+        if pa and text.startswith(pa):
+            if not own_line or self.continued:
+                self.ill = "alternative pre-doc mark inline or inside a continued statement"
+                return
+            self.predocs.append("!" + self.docmark + text[len(pa):].rstrip())
+            self._predoc_block_open = True
+            self._alt = "pre"
+            return
+        if da and text.startswith(da):
+            if not own_line or self.continued:
+                self.ill = "alternative doc mark inline or inside a continued statement"
+                return
+            if self._predoc_block_open:
+                self.ill = "doc line directly inside a pre-doc block (ambiguous)"
+            self.out.append(("d", "!" + self.docmark + text[len(da):].rstrip()))
+            self._alt = "doc"
+            return
+        # ordinary comment: dropped, unless it stands on a line of its own directly below the lines of an alternative block
+        if own_line and not self.continued and alt == "doc":
+            self.out.append(("d", "!" + self.docmark + text[1:].rstrip()))
+            self._alt = alt
+        elif own_line and not self.continued and alt == "pre":
+            self.predocs.append("!" + self.docmark + text[1:].rstrip())
+            self._alt = alt
 
     # -- main --------------------------------------------------------------
     def feed(self, line: str):
@@ -101,6 +131,8 @@ class RefFree:
         if stripped.startswith("#"):
             if self.lit:
                 self.ill = "cpp line inside literal"
+            if self._alt:
+                self.ill = "cpp line inside an alternative doc block (is the next comment 'immediately following'?)"
             return
         i = 0
         n = len(line)
@@ -127,12 +159,14 @@ class RefFree:
                 self.cur += " "
         else:
             if i >= n:
+                self._alt = None  # a blank line ends an alternative block
                 return
             if line[i] == "&":
                 self.ill = "& at start of a non-continuation line"
                 return
             if line[i] != "!":
                 self._predoc_block_open = False
+                self._alt = None
         resumed_lit = bool(self.lit)
         had_code = self.continued
         self.continued = False
@@ -210,6 +244,7 @@ class RefFree:
             tuple(self.line_stmts),
             tuple(self.predocs),
             self._predoc_block_open,
+            self._alt,
         )
 
 
